@@ -3,6 +3,8 @@ package minibus
 import (
 	"context"
 	"sync"
+
+	"github.com/smart-core-os/sc-golang/internal/verifhook"
 )
 
 type Bus struct {
@@ -18,11 +20,13 @@ func (b *Bus) Send(ctx context.Context, event any) (ok bool) {
 		listeners = append(listeners, l)
 	}
 	b.listenerM.RUnlock()
+	verifhook.Yield("bus.send.afterSnapshot")
 
 	needGc := false
 
 	// send the event to each listener that's not closed
 	for _, l := range listeners {
+		verifhook.Yield("bus.send.beforeListener")
 		ok, active := l.send(ctx, event)
 		if !ok {
 			return false
@@ -68,6 +72,7 @@ func (b *Bus) Listen(ctx context.Context) <-chan any {
 	}()
 
 	// store the listener
+	verifhook.Yield("bus.listen.beforeRegister")
 	b.listenerM.Lock()
 	defer b.listenerM.Unlock()
 	b.listeners = append(b.listeners, l)
@@ -102,6 +107,7 @@ func (l *listener) send(ctx context.Context, event any) (ok bool, active bool) {
 }
 
 func (l *listener) stop() {
+	verifhook.Yield("listener.stop.enter")
 	l.m.Lock()
 	defer l.m.Unlock()
 	if l.ch != nil {
